@@ -170,6 +170,59 @@ func collectsAndSorts(fset *token.FileSet, r *ast.RangeStmt, fn *ast.BlockStmt) 
 	return sorted
 }
 
+// boundedIndex: the index expression x = S[i] lies in the body of a loop that keeps i within [0, len(S))
+func boundedIndex(fset *token.FileSet, fn *ast.BlockStmt, x *ast.IndexExpr) bool {
+	iv, ok := x.Index.(*ast.Ident)
+	if !ok {
+		return false
+	}
+	st := exprText(fset, x.X)
+	safe := false
+	assigned := func(body *ast.BlockStmt) bool {
+		found := false
+		ast.Inspect(body, func(n ast.Node) bool {
+			switch y := n.(type) {
+			case *ast.AssignStmt:
+				for _, l := range y.Lhs {
+					if id, ok := l.(*ast.Ident); ok && id.Name == iv.Name {
+						found = true
+					}
+				}
+			case *ast.IncDecStmt:
+				if id, ok := y.X.(*ast.Ident); ok && id.Name == iv.Name {
+					found = true
+				}
+			}
+			return true
+		})
+		return found
+	}
+	ast.Inspect(fn, func(n ast.Node) bool {
+		switch y := n.(type) {
+		case *ast.ForStmt:
+			if y.Body.Pos() <= x.Pos() && x.End() <= y.Body.End() && y.Cond != nil {
+				if be, ok := y.Cond.(*ast.BinaryExpr); ok && be.Op == token.LSS {
+					if id, ok := be.X.(*ast.Ident); ok && id.Name == iv.Name && exprText(fset, be.Y) == "len("+st+")" && !assigned(y.Body) {
+						if as, ok := y.Init.(*ast.AssignStmt); ok && len(as.Rhs) == 1 {
+							if lit, ok := as.Rhs[0].(*ast.BasicLit); ok && lit.Kind == token.INT {
+								safe = true // starts at a non-negative literal
+							}
+						}
+					}
+				}
+			}
+		case *ast.RangeStmt:
+			if y.Body.Pos() <= x.Pos() && x.End() <= y.Body.End() {
+				if id, ok := y.Key.(*ast.Ident); ok && id.Name == iv.Name && exprText(fset, y.X) == st && !assigned(y.Body) {
+					safe = true
+				}
+			}
+		}
+		return true
+	})
+	return safe
+}
+
 var panicSelectors = map[string]bool{
 	"Int64": true, "Uint64": true, "NewCoins": true, "NewCoin": true, "NewInt64Coin": true,
 	"NewDecCoins": true, "NewDecCoin": true, "MustNewDecFromStr": true, "MustUnmarshal": true, "MustMarshal": true,
@@ -383,6 +436,11 @@ func runInventoryCmd(args []string) {
 					case *ast.IndexExpr:
 						// indexing a map variable cannot panic; everything else can
 						if id, ok := x.X.(*ast.Ident); ok && mapVars[id.Name] {
+							return true
+						}
+						// s[i] inside `for i := ...; i < len(s); i++` or `for i := range s`, with i not assigned in the body,
+						// is in range by construction
+						if boundedIndex(fset, fd.Body, x) {
 							return true
 						}
 						add(&panicSites, "index", x)
